@@ -161,7 +161,7 @@ def check_name_injective(ctx, repo):
                 ctx.ok(c, st, injective_by="name is order-sensitive in every operand key tuple")
 
 
-@rule("C09.name-injective", props=["C09", "C13", "C11", "C12"], min_instances=3, mutants=[
+@rule("C09.name-injective", props=["C09", "C13", "C11", "C12", "C02", "C08"], min_instances=3, mutants=[
     ("drop the fresh suffix (unary)", ("operator_dict", "            keys_out, func = do_codegen(self.codegen, mv)\n            func.__name__ = f'{func.__name__}_{id(func)}'\n",
                                        "            keys_out, func = do_codegen(self.codegen, mv)\n")),
 ])
